@@ -113,9 +113,30 @@ def check(env, rep, tier):
         arg = I.mat(st, prog.ty(dec["locals"][1]["ty"]), "value")
         scalars = []
 
-        def vhook(I_, ctx, s, v):
-            pass
+        # the scalar is whatever the unsigned option-value decoder returns (its content is C06's business): it is
+        # replaced by one fresh symbol of the decoder's width, so the bit fields are read off a single source
+        uints0 = [find_impl_fn(prog, "core::convert::TryFrom", "option_value::OptionValueU%d" % w, "alloc::vec::Vec<u8>", "try_from") for w in (8, 16, 32, 64)]
+        upaths0 = {b["path"]: w for b, w in zip(uints0, (8, 16, 32, 64)) if b is not None}
+        inj0 = []
+
+        def m_scalar(I_, s, call):
+            from summaries import mk_ok, mk_err
+            w = upaths0[call.path]
+            s2 = s.copy()
+            x = I_.fresh_int(s, "scalar", (w, False), 0, (1 << w) - 1)
+            inj0.append(w)
+            et = call.dest_ty[2][1] if call.dest_ty and call.dest_ty[0] == "adt" and len(call.dest_ty[2]) > 1 else None
+            return [(s, mk_ok(StructV([x]), call.dest_ty)), (s2, mk_err(I_.mat(s2, et, "uint-err"), call.dest_ty))]
+        for pth in upaths0:
+            I.extra_models[pth] = m_scalar
         I, res = run(prog, dec, args=[arg], st=st, I=I)
+        if not inj0:
+            # the decoder does not go through the uint option decoder: analyse it as it stands
+            I = new_interp(prog)
+            I.no_join_bodies.add(dec["id"])
+            st = State()
+            arg = I.mat(st, prog.ty(dec["locals"][1]["ty"]), "value")
+            I, res = run(prog, dec, args=[arg], st=st, I=I)
         report_obligations(rep, "C13.1", I, include_cast=True)
         oks = [(s, rv.variants[0].fields[0]) for s, rv in res if isinstance(rv, EnumV) and 0 in rv.variants and isinstance(rv.variants[0], StructV)]
         rep.ob("C13.1", "decode|ok-path", bool(oks), "decoder has no success path")
